@@ -43,7 +43,7 @@ def ref_outcome(scn):
 
 
 def gen(rng, n_min=2, n_max=6, groups_max=1, allow_time=True, allow_local=False, cyc=False, ext_names=None,
-        squeue_faults=0.0, squeue_lies=0.0, onehost=0.0, nodist=0.0):
+        squeue_faults=0.0, squeue_lies=0.0, onehost=0.0, nodist=0.0, squeue_odd=0.0):
     n = rng.randint(n_min, n_max)
     names = [chr(65 + i) for i in range(n)] if n <= 26 else [f"J{i}" for i in range(n)]
     order = names[:]
@@ -97,6 +97,10 @@ def gen(rng, n_min=2, n_max=6, groups_max=1, allow_time=True, allow_local=False,
         scn["onehost"] = True          # all batches land on one node (one hostname for every node-side submitter round)
     if nodist and rng.random() < nodist:
         scn["dist"] = False            # --no-distributed-submitter: only the user's try-submit-jobs rounds move the submission
+    if squeue_odd and rng.random() < squeue_odd:
+        # a few status answers show the active batches in states outside JADE's table (SUSPENDED / REQUEUED); no fault
+        scn["squeue_odd"] = rng.randint(1, 3)
+        scn["squeue_odd_skip"] = rng.randint(0, 4)
     if squeue_lies and rng.random() < squeue_lies:
         # the scheduler answers one or two status queries with an empty listing (exit 0) although batches are active
         scn["squeue_empty"] = rng.randint(1, 2)
